@@ -105,6 +105,7 @@ def sort_points(text):
 
 # ---------------------------------------------------------------- rustc + run
 LONG_RETRIES = [0]
+RUN_CAP = 1 << 18       # bytes kept per stream of a compiled program's run (7 500 runs x 2 streams are held at once)
 
 
 def rustc_and_run(args):
@@ -127,7 +128,7 @@ def rustc_and_run(args):
             if limit == 30 and tmo != 30:
                 LONG_RETRIES[0] += 1
                 if LONG_RETRIES[0] > 4 * NCPU: break      # bounded: an endless compiled program must not make the check endless
-            r = run_capped([exe], input=data.encode("utf-8"), timeout=limit)
+            r = run_capped([exe], input=data.encode("utf-8"), timeout=limit, cap=RUN_CAP)
             out = (r.stdout, r.stderr, r.returncode)
             if r.returncode != "timeout": break
         res.append(out)
@@ -186,16 +187,25 @@ def main(tier, seed):
         ops = []
         for e in encs:
             for lvl in (0, 1, 2): ops.append("compile %d %s" % (lvl, e))
-        it = impl_lines(ops, timeout=900); mt = model_lines(["m." + o for o in ops], timeout=900)
+        # the programs that will also be compiled by rustc and run (their texts are kept; all other texts are compared and dropped,
+        # batch by batch: 36 000 emitted sources at once took 18 GB)
+        idxs = list(range(len(CORPUS) + len(cat_progs()))) + rng.sample(range(len(CORPUS) + len(cat_progs()), len(progs)), min(nrun, n))
+        keep = {"compile %d %s" % (lvl, encs[k]) for k in idxs for lvl in (0, 1, 2)}
         feats = {}
         texts = {}
-        for o, a, m in zip(ops, it, mt):
+        def text_pairs():
+            B = 3000
+            for b in range(0, len(ops), B):
+                chunk = ops[b:b + B]
+                it = impl_lines(chunk, timeout=900); mt = model_lines(["m." + o for o in chunk], timeout=900)
+                for x in zip(chunk, it, mt): yield x
+        for o, a, m in text_pairs():
             if unjudged(a, m):
                 rep.count("skipped-resource-limit"); continue
             rep.count("emitted-text")
             if a.startswith("ok ") and m.startswith("ok "):
                 ta = dec_text(a[3:]); tm = dec_text(m[3:])
-                texts[o] = ta
+                if o in keep: texts[o] = ta
                 for f in features(ta): feats[f] = feats.get(f, 0) + 1
                 na = normalise_impl(ta)
                 if na != sort_points(tm):
@@ -204,7 +214,6 @@ def main(tier, seed):
             elif a != m:
                 rep.violation("correspondence", {"what": "build_source outcome differs from the model's", "op": o, "impl": a[:300], "model": m[:300]})
         # (ii) behaviour of the compiled program vs the language definition
-        idxs = list(range(len(CORPUS) + len(cat_progs()))) + rng.sample(range(len(CORPUS) + len(cat_progs()), len(progs)), min(nrun, n))
         tmp = tempfile.mkdtemp(prefix="c03", dir=BUILD)
         jobs = []; meta = []; want_ops = []
         for k in idxs:
@@ -241,7 +250,16 @@ def main(tier, seed):
                 wo = dec_text(wo or "-").encode("utf-8"); we = dec_text(we or "-").encode("utf-8")
                 kind = wend.split(" ")[0]
                 ends[kind] = ends.get(kind, 0) + 1
-                if kind == "cut" or rc == "timeout":
+                if len(so) >= RUN_CAP or len(se) >= RUN_CAP:
+                    # more output than is kept: only the kept part can be compared
+                    ok = (so.startswith(wo) or wo.startswith(so)) and (se.startswith(we) or we.startswith(se))
+                    rep.count("compiled-run-output-truncated")
+                    if not ok:
+                        rep.violation("impl-vs-spec", {"what": "compiled program (level %d) differs from the language definition" % lvl, "prog": encs[k], "stdin": i,
+                                                       "executable": [so[:300].decode("utf-8", "replace"), se[:300].decode("utf-8", "replace"), rc], "definition": [wo[:300].decode("utf-8", "replace"), we[:300].decode("utf-8", "replace"), wend],
+                                                       "match_key": "run %d %s %s" % (lvl, encs[k], enc_text(i))})
+                    continue
+                elif kind == "cut" or rc == "timeout":
                     ok = kind == "cut" and (so.startswith(wo) or wo.startswith(so)) and (se.startswith(we) or we.startswith(se))
                     if rc != "timeout" and kind == "cut":
                         ok = so.startswith(wo) and se.startswith(we)     # ended later than the model's step cap: must extend what was seen
